@@ -82,6 +82,30 @@ MUTATIONS = [
        "atom_type_elements=self.atom_type_labels,\n                     atom_type_labels=self.atom_type_elements,")], "C09", "fail"),
     ("getitem: cell dropped", "breaking", A,
      [("                     groups=np.take(self.groups, idx, axis=0),\n                     cell=self.cell)", "                     groups=np.take(self.groups, idx, axis=0))")], "C09", "fail"),
+    # ---- item 3: Atoms.replicate
+    ("replicate: .T dropped in the translation vector", "breaking", A,
+     [("transatoms.translate(np.matmul(transatoms.cell.T, ucmult))", "transatoms.translate(np.matmul(transatoms.cell, ucmult))")], "C12", "fail"),
+    ("replicate: range(r) -> range(1, r + 1)", "unsupported", A,
+     [("np.meshgrid(*[range(r) for r in repldims])", "np.meshgrid(*[range(1, r + 1) for r in repldims])")], "C12", "Unsupported"),
+    ("replicate: range(r) -> range(r + 1)", "breaking", A,
+     [("np.meshgrid(*[range(r) for r in repldims])", "np.meshgrid(*[range(r + 1) for r in repldims])")], "C12", "fail"),
+    ("replicate: .T of the multiplier array dropped (reshape of the untransposed meshgrid)", "unsupported", A,
+     [("np.array(np.meshgrid(*[range(r) for r in repldims])).T.reshape(-1, 3)", "np.array(np.meshgrid(*[range(r) for r in repldims])).reshape(-1, 3)")], "C12", "Unsupported"),
+    ("replicate: the zero row is kept (the fragment's anchor line is gone)", "unsupported", A,
+     [("        ucmults = ucmults[np.any(ucmults != 0, axis=1)] # remove [0,0,0] since in copy\n", "")], "C12", "Unsupported"),
+    ("replicate: offsets=(0,0,0,0,1)", "breaking", A,
+     [("repl_atoms.extend(transatoms, offsets=(0,0,0,0,0))", "repl_atoms.extend(transatoms, offsets=(0,0,0,0,1))")], "C12", "fail"),
+    ("replicate: offsets keyword dropped (types merged)", "unsupported", A,
+     [("repl_atoms.extend(transatoms, offsets=(0,0,0,0,0))", "repl_atoms.extend(transatoms)")], "C12", "Unsupported"),
+    ("replicate: repldims reversed in the meshgrid", "breaking", A,
+     [("np.meshgrid(*[range(r) for r in repldims])", "np.meshgrid(*[range(r) for r in (repldims[2], repldims[1], repldims[0])])")], "C12", "fail"),
+    ("replicate: translation by the cell of repl_atoms' multiplier twice (2 * ucmult)", "unsupported", A,
+     [("np.matmul(transatoms.cell.T, ucmult)", "np.matmul(transatoms.cell.T, 2 * ucmult)")], "C12", "Unsupported"),
+    ("replicate NEUTRAL: locals renamed, matmul of self.cell.T", "neutral", A,
+     [("        for ucmult in ucmults:\n            transatoms = self.copy()\n            transatoms.translate(np.matmul(transatoms.cell.T, ucmult))\n            repl_atoms.extend(transatoms, offsets=(0,0,0,0,0))\n",
+       "        for ucmult in ucmults:\n            transatoms = self.copy()\n            shift = np.matmul(self.cell.T, ucmult)\n            transatoms.translate(shift)\n            repl_atoms.extend(transatoms, offsets=(0,0,0,0,0))\n")], "C12", "pass"),
+    ("replicate NEUTRAL: explicit three ranges instead of the starred comprehension", "neutral", A,
+     [("np.meshgrid(*[range(r) for r in repldims])", "np.meshgrid(range(repldims[0]), range(repldims[1]), range(repldims[2]))")], "C12", "pass"),
     ("getitem NEUTRAL: keywords reordered", "neutral", A,
      [("        return Atoms(positions=np.take(self.positions, idx, axis=0),\n                     atom_types=np.take(self.atom_types, idx, axis=0),\n",
        "        return Atoms(atom_types=np.take(self.atom_types, idx, axis=0),\n                     positions=np.take(self.positions, idx, axis=0),\n")], "C09", "pass"),
@@ -188,6 +212,19 @@ def python_side():
         raise AssertionError
     except IndexError:
         pass
+    # Py6.meshgridT3: rows (x, y, z), z slowest, then x, then y
+    for da in range(0, 4):
+        for db in range(0, 4):
+            for dc in range(0, 4):
+                got = np.array(np.meshgrid(*[range(r) for r in (da, db, dc)])).T.reshape(-1, 3)
+                want = [(i, j, k) for k in range(dc) for i in range(da) for j in range(db)]
+                assert [tuple(int(v) for v in row) for row in got] == want, (da, db, dc)
+                kept = got[np.any(got != 0, axis=1)]
+                assert [tuple(int(v) for v in row) for row in kept] == [m for m in want if m != (0, 0, 0)]
+    got = np.array(np.meshgrid([5, 6], [7, 8, 9], [1, 2])).T.reshape(-1, 3)
+    assert [tuple(int(v) for v in r) for r in got][:4] == [(5, 7, 1), (5, 8, 1), (5, 9, 1), (6, 7, 1)]
+    cell = np.array([[1., 2, 3], [4, 5, 6], [7, 8, 10]])
+    assert list(np.matmul(cell.T, np.array([1, 0, 2]))) == [15., 18., 23.]           # the example of Props/C12Code6.lean
     return "python side: numpy conventions of Py6 hold"
 
 
